@@ -21,6 +21,7 @@
 #define MAXE 1100
 #define MAGIC 0x4ea9e1e5u
 #define NODE_OFF offsetof(struct elem, node)
+static unsigned init_toggle;
 #define HTAB 4096
 
 struct elem {
@@ -140,7 +141,9 @@ static void st_create(int scope)
     /* highest id first so that the lowest id of a priority is taken first */
     for (i = C->np - 1; i >= 0; i--) new_elem(i, i % C->nk);
     for (i = 0; i < C->nh; i++) {
-        cstl_heap_init(&H[i], cmp_prio, &cmp_priv, NODE_OFF);
+        /* both documented ways of making a heap: the init function and (every other time) the static initialiser */
+        if (++init_toggle & 1) cstl_heap_init(&H[i], cmp_prio, &cmp_priv, NODE_OFF);
+        else H[i] = (struct cstl_heap)CSTL_HEAP_INITIALIZER(struct elem, node, cmp_prio, &cmp_priv);
         mi[i] = i; Mn[i] = 0; lastkind[i] = 0;
         memset(cnt[i], 0, sizeof(cnt[i][0]) * C->nk);
     }
